@@ -180,6 +180,27 @@ EXEC_HELPERS = {'is_int': _is_int, 'count': _count, 'iff': lambda a, b: bool(a) 
                 'subset': lambda a, b: set(a) <= set(b), 'math': math}
 
 
+def _snap(x):
+    """Value of `old(...)`: containers are copied (recursively), everything else is kept by reference -- the heap
+    model of the verifier: containers are values, objects are identities (a deep copy of an object without __eq__
+    would compare unequal to the very object it was copied from)."""
+    try:
+        import numpy as np
+        if isinstance(x, np.ndarray):
+            return x.copy()
+    except ImportError:
+        pass
+    if isinstance(x, list):
+        return [_snap(e) for e in x]
+    if isinstance(x, tuple):
+        return tuple(_snap(e) for e in x)
+    if isinstance(x, (set, frozenset)):
+        return type(x)(x)
+    if isinstance(x, dict):
+        return {k: _snap(v) for k, v in x.items()}
+    return x
+
+
 class ExecClause:
     """One contract clause compiled to a Python predicate over the real objects."""
 
@@ -197,7 +218,7 @@ class ExecClause:
             self.old_codes.append(compile(e, '<contract-old>', 'eval'))
 
     def snapshot(self, env):
-        return [copy.deepcopy(eval(c, env)) for c in self.old_codes]
+        return [_snap(eval(c, env)) for c in self.old_codes]
 
     def holds(self, env, olds):
         env['__old__'] = olds
@@ -264,7 +285,9 @@ def run_exec_contract(contract, env, call, universe=None, extra_helpers=None):
         name = type(raised).__name__
         expected = [lab for lab, (exc, w) in raises.items() if exc == name and w]
         declared = [lab for lab, (exc, w) in raises.items() if exc == name and not lab.startswith('must:')]
-        if not expected and name not in contract.get('may_raise', ()):
+        # a declared exception class covers its subclasses (Python's `except` semantics)
+        mro_names = {k.__name__ for k in type(raised).__mro__}
+        if not expected and not (mro_names & set(contract.get('may_raise', ()))):
             viol.append((f'raises[{"/".join(declared) or "unexpected:" + name}]',
                          f'raised {name}: {raised} although no declared raising condition holds'))
         return viol
